@@ -258,14 +258,25 @@ def po_split_sub(S):
     a = S.dec("a", 0, 10 ** 12, lo_strict=True)
     b = S.dec("b", 0, 10 ** 12, lo_strict=True)
     do_repay = S.bool("op_is_repay")
+    s_before, d_before = supply_amount(w1.market, w1.op), debt_amount(w1.market, w1.op)
     try:
         if do_repay:
             w1.market.repay(w1.op, a)
             w1.market.repay(w1.op, b)
-            w2.market.repay(w2.op, a + b)
         else:
             w1.market.withdraw(w1.op, a)
             w1.market.withdraw(w1.op, b)
+    except REJECT:
+        return
+    # two accepted operations in ONE bar move exactly a + b out of the position (the second is judged against the position the first left)
+    if do_repay:
+        S.check("two-repayments-in-a-bar:debt-reduced-by-exactly-a+b(mod-dust)", abs(d_before - debt_amount(w1.market, w1.op) - (a + b)) <= 2 * DUST * borrow_index(w1.market, w1.op))
+    else:
+        S.check("two-withdrawals-in-a-bar:supply-reduced-by-exactly-a+b(mod-dust)", abs(s_before - supply_amount(w1.market, w1.op) - (a + b)) <= 2 * DUST * liq_index(w1.market, w1.op))
+    try:
+        if do_repay:
+            w2.market.repay(w2.op, a + b)
+        else:
             w2.market.withdraw(w2.op, a + b)
     except REJECT:
         return
